@@ -1,6 +1,7 @@
 package clusterb
 
 import (
+	"context"
 	"fmt"
 	"math/rand"
 	"os"
@@ -11,6 +12,7 @@ import (
 
 	"github.com/pilosa/pilosa"
 	"github.com/pilosa/pilosa/roaring"
+	"github.com/pilosa/pilosa/test"
 
 	"verif/harness/behav"
 )
@@ -372,6 +374,88 @@ func fragList(h *pilosa.Holder) [][]interface{} {
 	return out
 }
 
+// realResize runs a completed resize on real servers: a one-node cluster with data in
+// c.Have joins a second node (id c.Node) over gossip; when both are NORMAL again the
+// fragments left on the first node are logged as a clean event. It returns skipped != ""
+// when the servers did not get there in time (not a verdict, not inconclusive).
+func realResize(t testing.TB, c *c21Case, cn int) (ev map[string]interface{}, skipped string) {
+	// choose shards with data so that some stay on the first node and some move away
+	// (the placement of a scratch cluster object is used only to choose inputs)
+	probe := pilosa.VerifClusterNew(pilosa.VerifClusterOptions{ReplicaN: c.R})
+	probe.JoinBasic(pilosa.VerifClusterNode("node0", "h0"))
+	probe.JoinBasic(pilosa.VerifClusterNode(c.Node, "h1"))
+	var stay, move []uint64
+	for s := uint64(0); s < 64; s++ {
+		if contains(probe.ShardNodes("c", s), "node0") {
+			if len(stay) < 3 {
+				stay = append(stay, s)
+			}
+		} else if len(move) < 3 {
+			move = append(move, s)
+		}
+	}
+	c.Have = append(append([]uint64{}, stay...), move...)
+	sort.Slice(c.Have, func(a, b int) bool { return c.Have[a] < c.Have[b] })
+	clus := test.MustNewCluster(t, 1)
+	m0 := clus[0]
+	m0.Config.Cluster.ReplicaN = c.R
+	if err := m0.Start(); err != nil {
+		return nil, "first node did not start: " + err.Error()
+	}
+	defer func() { m0.Close(); os.RemoveAll(m0.Config.DataDir) }()
+	ctx := context.Background()
+	if _, err := m0.API.CreateIndex(ctx, "c", pilosa.IndexOptions{}); err != nil {
+		return nil, "create index: " + err.Error()
+	}
+	for _, fn := range c21Fields {
+		if _, err := m0.API.CreateField(ctx, "c", fn, pilosa.OptFieldTypeTime(pilosa.TimeQuantum("Y"))); err != nil {
+			return nil, "create field: " + err.Error()
+		}
+		for _, s := range c.Have {
+			q := fmt.Sprintf("Set(%d, %s=1, 2019-03-04T00:00)", s*pilosa.ShardWidth+1, fn)
+			if _, err := m0.API.Query(ctx, &pilosa.QueryRequest{Index: "c", Query: q}); err != nil {
+				return nil, "set: " + err.Error()
+			}
+		}
+	}
+	h0 := pilosa.VerifClusterHolderOfAPI(m0.API)
+	before := fragList(h0)
+	m1 := test.NewCommandNode(false)
+	if err := os.WriteFile(filepath.Join(m1.Config.DataDir, ".id"), []byte(c.Node), 0o600); err != nil {
+		return nil, err.Error()
+	}
+	m1.Config.Gossip.Port = "0"
+	m1.Config.Gossip.Seeds = []string{m0.GossipAddress()}
+	m1.Config.Cluster.ReplicaN = c.R
+	defer os.RemoveAll(m1.Config.DataDir)
+	if err := m1.Start(); err != nil {
+		return nil, "second node did not start: " + err.Error()
+	}
+	defer m1.Close()
+	vc := pilosa.VerifClusterOfAPI(m0.API)
+	deadline := time.Now().Add(40 * time.Second)
+	for {
+		if len(vc.NodeIDs()) == 2 && m0.API.State() == "NORMAL" && m1.API.State() == "NORMAL" {
+			break
+		}
+		if time.Now().After(deadline) {
+			return nil, fmt.Sprintf("resize not completed in 40s: members %v, states %s/%s", vc.NodeIDs(), m0.API.State(), m1.API.State())
+		}
+		time.Sleep(20 * time.Millisecond)
+	}
+	time.Sleep(100 * time.Millisecond) // the cleaner runs under the state change; let the follower settle
+	idx := h0.Index("c")
+	shards := idx.AvailableShards().Slice()
+	own := [][]string{}
+	for _, s := range shards {
+		own = append(own, nonNil(vc.ShardNodes("c", s)))
+	}
+	after := fragList(h0)
+	return map[string]interface{}{"ev": "clean", "c": cn, "ids": vc.NodeIDs(), "r": c.R, "self": m0.API.Node().ID, "via": "real",
+		"ix": []interface{}{map[string]interface{}{"name": "c", "shards": shards, "own": own}}, "before": before, "after": after,
+		"other": len(fragList(pilosa.VerifClusterHolderOfAPI(m1.API)))}, ""
+}
+
 func subsetOf(mask int) []uint64 {
 	var s []uint64
 	for b := 0; b < 8; b++ {
@@ -501,7 +585,17 @@ func TestC21(t *testing.T) {
 	defer os.RemoveAll(dir)
 
 	run := func(env *c21Env, c *c21Case, cn int) (ev map[string]interface{}, fail *behav.Failure, harness string) {
-		pv, stack := behav.Protect(func() { ev = env.events(c, cn) })
+		pv, stack := behav.Protect(func() {
+			if c.Kind == "real" {
+				var skipped string
+				if ev, skipped = realResize(t, c, cn); skipped != "" {
+					res.Cover("real_resize_skipped")
+					res.Coverage["real_resize_skip_reason"] = skipped
+				}
+				return
+			}
+			ev = env.events(c, cn)
+		})
 		if pv != nil {
 			if behav.PanicInCode(stack) {
 				f := c21Failure(c, "panic", fmt.Sprintf("panic: %v\n%s", pv, tail(stack, 1800)))
@@ -527,6 +621,10 @@ func TestC21(t *testing.T) {
 		}
 		if fail != nil {
 			res.Fail(*fail)
+			return
+		}
+		if ev == nil {
+			res.SetInconclusive("replay: the real resize did not complete")
 			return
 		}
 		line := mustJSON(ev)
@@ -596,6 +694,38 @@ func TestC21(t *testing.T) {
 			res.AddSample(c)
 		}
 	})
+	// completed resizes on real servers (gossip join), cleanup observed on the first node
+	reals := []c21Case{{Kind: "real", Seed: behav.Seed(), Old: []string{"node0"}, Act: "add", Node: "aaa", R: 1, Hasher: "jump", Have: []uint64{0, 1, 2, 3, 4, 5}}}
+	if behav.Thorough() {
+		reals = append(reals,
+			c21Case{Kind: "real", Seed: behav.Seed(), Old: []string{"node0"}, Act: "add", Node: "zzz", R: 1, Hasher: "jump", Have: []uint64{0, 1, 2, 3, 5, 7}},
+			c21Case{Kind: "real", Seed: behav.Seed(), Old: []string{"node0"}, Act: "add", Node: "aaa", R: 2, Hasher: "jump", Have: []uint64{0, 2, 4, 6}})
+	}
+	if maxCases == 1<<30 || os.Getenv("VERIF_REAL") != "" {
+		for k := range reals {
+			c := &reals[k]
+			cn := tw.Case(c)
+			ev, fail, harness := run(env, c, cn)
+			if harness != "" {
+				res.Cover("real_resize_skipped")
+				res.Coverage["real_resize_skip_reason"] = tail(harness, 300)
+				continue
+			}
+			if fail != nil {
+				res.Fail(*fail)
+				continue
+			}
+			if ev == nil {
+				continue
+			}
+			tw.Event(ev)
+			res.CountEval()
+			res.Cover("event:clean_real")
+			if len(ev["after"].([][]interface{})) < len(ev["before"].([][]interface{})) {
+				res.Cover("clean_real:removed_some")
+			}
+		}
+	}
 	res.Coverage["trace_files"] = tw.files
 	res.Coverage["cases"] = tw.ncases
 	res.Coverage["universe"] = env.universe
